@@ -51,6 +51,16 @@ def to_iter(I, v):
     if isinstance(v, SetV): return Iter("list", xs=list(v.items), i=0)
     if isinstance(v, Agg) and v.name and len(v.cells) == 1 and isinstance(v.cells[0].v, Seq):
         return Iter("owned", cells=list(v.cells[0].v.cells), i=0)
+    if isinstance(v, (EnumV, Agg)):
+        nm = v.d.path if isinstance(v, EnumV) else v.name
+        if nm:
+            for c in I.P.fns:
+                try:
+                    f = I.P._find_trait_method(nm, "Iterator", "next", c)
+                except Unmodelled:
+                    f = None
+                if f is not None:
+                    return Iter("repo", obj=Cell(v), f=f)
     hook = getattr(I, "into_iter_hook", None)
     if hook:
         r = hook(I, v)
@@ -160,6 +170,9 @@ def next_(I, it):
         return next_(I, dd["inner"])
     if k == "py":
         return dd["f"](I)
+    if k == "repo":
+        r = I.run_fn(dd["f"], [Ref(dd["obj"])])
+        return END if r.variant == "None" else r.cells[0].v
     raise Unmodelled("iterator kind " + k)
 
 
